@@ -501,6 +501,29 @@ Lemma cite_npz_roundtrip_exact (V : Type) (x : Npz.arr V) :
   Py.bind (Npz.save_members V x) (fun ms => Npz.load_members V ms) = Py.Ok x.
 Proof. apply NpzP.npz_roundtrip_exact_proof. Qed.
 
+(* the source's flag expression all(d == 1 for d in diff_nonbroadcast_idx) IS C08's `adjacent` ... *)
+Lemma all_diffs_one_adjacent (l : list Z) : all_diffs_one l = ShapeOps.adjacent l.
+Proof.
+  unfold all_diffs_one. destruct l as [|a r]; [reflexivity|]. revert a.
+  induction r as [|b r' IH]; intros a; [reflexivity|].
+  transitivity ((b - a =? 1) && forallb (fun d => d =? 1) (diffs (b :: r'))); [reflexivity|].
+  rewrite (IH b). reflexivity.
+Qed.
+
+(* ... so the sorted= flag of broadcast_to is sound: when it is True the expanded coordinates are in row-major order *)
+Lemma cite_broadcast_flag_sound (V : Type) (x : coo V) (params : list (option bool)) (bs : shape) :
+  canonical V x -> ShapeOpsP.aligned params (c_shape x) bs ->
+  all_diffs_one (ShapeOps.true_positions params 0) = true ->
+  StronglySorted lex_lt (map fst (ShapeOps.expand_entries params bs (entries x))).
+Proof.
+  intros H1 H2 H3. rewrite all_diffs_one_adjacent in H3.
+  apply ShapeOpsP.broadcast_to_sorted_rule_sound_proof; assumption.
+Qed.
+
+(* ... whereas any(d == 1 ...) is true for non-contiguous axes: (2,3,1,4) -> (2,3,5,4) has non-broadcast axes 0,1,3 *)
+Lemma any_diff_one_unsound : any_diff_one [0; 1; 3] = true /\ all_diffs_one [0; 1; 3] = false.
+Proof. split; reflexivity. Qed.
+
 Inductive citation := Cite (name : string) (P : Prop) (pf : P).
 
 Open Scope string_scope.
